@@ -33,6 +33,7 @@ func checkC17(c *Ctx, r *Report) {
 	checkPixelMaps(c, r)
 	checkThresholds(c, r)
 	checkBlackPointBilevel(c, r)
+	checkBlackPointEstimator(c, r)
 	checkSharpen(c, r)
 	checkMatrixCache(c, r)
 	checkRowAlias(c, r)
